@@ -4,7 +4,8 @@ It does NOT copy engine_driver.py: it subclasses its Driver and only changes
   * the fake devices when the case says {"posdev": true}: a device's reading is a function of the
     last positions its `set` messages gave to the devices (replay-deterministic, which the stock
     device -- a counter that increases with every read -- is not); used by the C03 differential cases;
-  * `resolve_arg`: the argument "@cb" of a `subscribe` message becomes a callable.
+  * `resolve_arg`: the argument "@cb" of a `subscribe` message becomes a callable;
+  * `fire`: releasing a suspension nobody waits for is reported as ineffective to on_idle.
 Everything else (loop, logging task factory, tapes, observation format) is engine_driver's.
 """
 import threading
@@ -55,6 +56,16 @@ class CtlDriver(ed.Driver):
                 return None
             return cb
         return a
+
+    def fire(self, inj):
+        # a release nobody is waiting for wakes nothing up: tell on_idle to go on with the next injection
+        # (otherwise a case whose releases come in the "wrong" order sits on an idle loop until it times out)
+        if inj.get("req") == "release":
+            ev = self.events.get(inj["sid"])
+            waited = ev is not None and not ev.is_set() and len(getattr(ev, "_waiters", ())) > 0
+            r = super().fire(inj)
+            return bool(r) and waited
+        return super().fire(inj)
 
     def run(self):
         old = ed.make_dev
